@@ -73,6 +73,9 @@ type jScenario struct {
 	// PrefixGaps[i]: virtual ns slept before the i-th prefix publish; ValidTTL: TTL of a "valid:*" replayer (0 = one hour).
 	PrefixGaps []int64 `json:"prefix_gaps,omitempty"`
 	ValidTTL   int64   `json:"valid_ttl,omitempty"`
+	// PutLatency / ReplayLatency: virtual ns spent inside every Put / Replay call
+	PutLatency    int64 `json:"put_latency,omitempty"`
+	ReplayLatency int64 `json:"replay_latency,omitempty"`
 	Subs        []jSub         `json:"subs"`
 	Pubs        []jPub         `json:"pubs"`
 	Shutdowns   []jShutdown    `json:"shutdowns,omitempty"`
@@ -195,7 +198,9 @@ func (h *hookState) fn(point string) {
 
 // ---- executor -----------------------------------------------------------------------------
 
-const jQuiet = 10 * time.Millisecond
+// jQuiet is a virtual quiet period, longer than anything a scenario can keep Joe busy with (a
+// stalled client takes 2 s of virtual time per call).
+const jQuiet = time.Hour
 
 func buildReplayer(kind string, validTTL int64) (sse.Replayer, error) {
 	parts := strings.Split(kind, ":")
@@ -206,7 +211,7 @@ func buildReplayer(kind string, validTTL int64) (sse.Replayer, error) {
 		n, _ := strconv.Atoi(parts[1])
 		return sse.NewFiniteReplayer(n, parts[2] == "auto")
 	case "valid":
-		ttl := time.Hour
+		ttl := 1000 * time.Hour
 		if validTTL > 0 {
 			ttl = time.Duration(validTTL)
 		}
@@ -261,7 +266,7 @@ func runJoe(t *testing.T, sc *jScenario) (tr *jTrace) {
 			if err != nil {
 				panic(err)
 			}
-			rec = &mon.RecReplayer{Inner: inner, Clock: clock, PutFault: sc.PutFault, ReplayFault: sc.ReplayFault}
+			rec = &mon.RecReplayer{Inner: inner, Clock: clock, PutFault: sc.PutFault, ReplayFault: sc.ReplayFault, PutLatency: time.Duration(sc.PutLatency), ReplayLatency: time.Duration(sc.ReplayLatency)}
 			joe.Replayer = rec
 			tr.HasRec = true
 		}
@@ -444,6 +449,10 @@ func runJoe(t *testing.T, sc *jScenario) (tr *jTrace) {
 		tr.Shutdowns = append(tr.Shutdowns, fin)
 		doShutdown(fin)
 		wgSubs.Wait()
+		// A Shutdown that lost the race, or whose context ended, does not wait for Joe: give Joe's
+		// goroutine (virtual) time to finish what it is doing and exit. If it never exits, the bubble
+		// cannot end and the runtime reports it.
+		time.Sleep(jQuiet)
 		for _, st := range tr.Subs {
 			st.Calls = st.Client.Calls()
 		}
